@@ -2,7 +2,13 @@
 from labrea import Option, dataset
 
 
+BODY_LOG = []      # one entry per body execution in THIS process (C20 compares run counts, not only values)
+EFFECT_LOG = []    # one entry per effect execution
+
+
 def _t(name, *args):
+    if name in ("f", "h", "none"):
+        BODY_LOG.append(name)
     if name == "none":
         return None
     return ("T", name, tuple(args))
@@ -33,15 +39,15 @@ def body_h2(a0, a1):
 
 
 def body_none0():
-    return None
+    return _t("none")
 
 
 def body_none1(a0):
-    return None
+    return _t("none")
 
 
 def body_none2(a0, a1):
-    return None
+    return _t("none")
 
 
 def var_f(*args):
@@ -53,7 +59,7 @@ def var_h(*args):
 
 
 def var_none(*args):
-    return None
+    return _t("none")
 
 
 def apply_g(x):
@@ -69,6 +75,7 @@ def cb_none(v):
 
 
 def e1(v):
+    EFFECT_LOG.append(v)
     return None
 
 
